@@ -1101,7 +1101,13 @@ def run(rep):
 
     # ---- binding self-test: the tolerances reject a sum-of-squares accumulator ---------------------
     rep.extra["naive_sum_of_squares_selftest"] = naive_selftest(stats_cases)
-    rep.note("binding self-test: " + binding_selftest(stats_cases, stop_cases))
+    # (it replays corrupted cases on the code under test: if that code itself deviates, the self-test says nothing -
+    #  it is only a machinery failure when the code conforms on everything replayed below)
+    selftest_error = None
+    try:
+        rep.note("binding self-test: " + binding_selftest(stats_cases, stop_cases))
+    except RuntimeError as e:
+        selftest_error = e
 
     # ---- replay into the real code ------------------------------------------------------------
     worst_model, worst_sweep, worst_stop = {}, {}, {}
@@ -1193,6 +1199,10 @@ def run(rep):
         worst_fraction_of_tolerance=rnd(worst_sweep))
     rep.extra["worst_fraction_of_tolerance"] = dict(model_cases=rnd(worst_model), stop_cases=rnd(worst_stop),
                                                     sweep=rnd(worst_sweep))
+    if selftest_error is not None:
+        if nviol == 0:
+            raise selftest_error
+        rep.note("binding self-test inconclusive (the code under test deviates from the model, see the violations): %s" % selftest_error)
     if nviol == 0:
         w = max(list(worst_model.values()) + list(worst_sweep.values()) + list(worst_stop.values()) + [0.0])
         if w > MAX_FRACTION:
